@@ -11,6 +11,7 @@ Open Scope nat_scope.
 Section P.
 Variable p : prog.
 Notation memob := (memob p).
+Notation dead := (dead p).
 Notation effb := (effb p).
 Notation WF := (WF p).
 
@@ -80,9 +81,12 @@ Proof.
   rewrite track_other; auto. intuition.
 Qed.
 
-Lemma WF_track : dep p o j -> WF s -> WF s'.
+Lemma track_gone k : dead s' k = dead s k.
+Proof. apply dead_view. destruct (track_rest k) as (_&_&_&_&_&_&_&_&_&_&_&H&_). exact H. Qed.
+
+Lemma WF_track : dep p o j -> dead s j = false -> WF s -> WF s'.
 Proof.
-  intros Hdep W. split.
+  intros Hdep Hlive W. split.
   - rewrite track_nlen. apply W.
   - intros i x. rewrite track_srcs. destruct (Nat.eqb_spec i o) as [->|].
     + rewrite in_app_iff. intros [H|[<-|[]]]; auto. eapply wf_srclt; eauto.
@@ -96,17 +100,84 @@ Proof.
     + rewrite in_subscribe. intros [H| ->]; [|congruence]. eapply wf_sub_src; eauto.
     + intros H. rewrite in_app_iff. left. eapply wf_sub_src; eauto.
     + apply W.
-  - intros y k. rewrite track_subs, track_srcs.
+  - intros y k. rewrite track_subs, track_srcs, track_gone.
     destruct (Nat.eqb_spec y j) as [->|Hy]; destruct (Nat.eqb_spec k o) as [->|Hk].
-    + intros _. rewrite in_subscribe. auto.
-    + intros H. rewrite in_subscribe. left. eapply wf_src_sub; eauto.
-    + rewrite in_app_iff. intros [H|[<-|[]]]; [|congruence]. eapply wf_src_sub; eauto.
+    + intros _ _. rewrite in_subscribe. auto.
+    + intros H Hg. rewrite in_subscribe. left. eapply wf_src_sub; eauto.
+    + rewrite in_app_iff. intros [H|[<-|[]]] Hg; [|congruence]. eapply wf_src_sub; eauto.
     + apply W.
   - intros i x. rewrite track_srcs. destruct (Nat.eqb_spec i o) as [->|].
     + rewrite in_app_iff. intros [H|[<-|[]]]; auto. eapply wf_dep; eauto.
     + apply W.
+  - intros y. rewrite track_gone, track_subs. destruct (Nat.eqb_spec y j) as [->|Hy].
+    + congruence.
+    + apply W.
 Qed.
 End Track.
+
+
+(* ---------------------------------------------------------------- track_dead *)
+Section TrackDead.
+Variables (c : ctx) (o j : nat) (s : state).
+Hypothesis Ho : obs_of c = Some o.
+Hypothesis Hlt : j < o.
+Hypothesis Hor : o < nlen s.
+
+Let s' := track_dead c j s.
+
+Lemma track_dead_nlen : nlen s' = nlen s.
+Proof. unfold s', track_dead. rewrite Ho. apply nlen_updn. Qed.
+
+Lemma track_dead_obs : getn s' o = set_srcs (getn s o) (srcs (getn s o) ++ [j]).
+Proof. unfold s', track_dead. rewrite Ho. rewrite getn_updn_same; auto. Qed.
+
+Lemma track_dead_other k : k <> o -> getn s' k = getn s k.
+Proof. intros H. unfold s', track_dead. rewrite Ho. rewrite getn_updn_other; auto. Qed.
+
+Lemma track_dead_misc : err s' = err s /\ ready s' = ready s /\ trace s' = trace s /\
+                        nocause s' = nocause s /\ halted s' = halted s.
+Proof. unfold s', track_dead. rewrite Ho. repeat split; reflexivity. Qed.
+
+Lemma track_dead_srcs k : srcs (getn s' k) = if Nat.eqb k o then srcs (getn s o) ++ [j] else srcs (getn s k).
+Proof.
+  destruct (Nat.eqb_spec k o) as [->|Hk].
+  - rewrite track_dead_obs. reflexivity.
+  - rewrite track_dead_other; auto.
+Qed.
+
+Lemma track_dead_rest k :
+  let n := getn s k in let n' := getn s' k in
+  sval n' = sval n /\ st n' = st n /\ cache n' = cache n /\ rlog n' = rlog n /\ since n' = since n /\
+  edirty n' = edirty n /\ eflag n' = eflag n /\ ereg n' = ereg n /\ efirst n' = efirst n /\
+  epaused n' = epaused n /\ ealive n' = ealive n /\ edone n' = edone n /\ emissed n' = emissed n /\ epoll n' = epoll n /\
+  subs n' = subs n.
+Proof.
+  cbv zeta. destruct (Nat.eq_dec k o) as [->|Hko]; [rewrite track_dead_obs; nsimpl; intuition|].
+  rewrite track_dead_other; auto. intuition.
+Qed.
+
+Lemma WF_track_dead : dep p o j -> dead s j = true -> WF s -> WF s'.
+Proof.
+  intros Hdep Hdead W.
+  assert (Hsu : forall k, subs (getn s' k) = subs (getn s k)) by (intros k; apply track_dead_rest).
+  assert (Hgo : forall k, dead s' k = dead s k) by (intros k; apply dead_view; apply track_dead_rest).
+  split.
+  - rewrite track_dead_nlen. apply W.
+  - intros i x. rewrite track_dead_srcs. destruct (Nat.eqb_spec i o) as [->|].
+    + rewrite in_app_iff. intros [H|[<-|[]]]; auto. eapply wf_srclt; eauto.
+    + apply W.
+  - intros k. rewrite Hsu. apply W.
+  - intros y k. rewrite Hsu, track_dead_srcs. intros H.
+    destruct (Nat.eqb_spec k o) as [->|Hk]; [rewrite in_app_iff; left|]; eapply wf_sub_src; eauto.
+  - intros y k. rewrite Hsu, track_dead_srcs, Hgo.
+    destruct (Nat.eqb_spec k o) as [->|Hk]; [|apply W].
+    rewrite in_app_iff. intros [H|[<-|[]]] Hg; [eapply wf_src_sub; eauto|congruence].
+  - intros i x. rewrite track_dead_srcs. destruct (Nat.eqb_spec i o) as [->|].
+    + rewrite in_app_iff. intros [H|[<-|[]]]; auto. eapply wf_dep; eauto.
+    + apply W.
+  - intros y. rewrite Hgo, Hsu. apply W.
+Qed.
+End TrackDead.
 
 (* ---------------------------------------------------------------- clear_sources *)
 Definition unsub_all (i : nat) (l : list nat) (s : state) : state :=
@@ -220,6 +291,9 @@ Proof.
   exact Hm.
 Qed.
 
+Lemma clear_gone k : dead s' k = dead s k.
+Proof. apply dead_view. destruct (clear_rest k) as (_&_&_&_&_&_&_&_&_&_&_&H&_). exact H. Qed.
+
 Lemma WF_clear : WF s'.
 Proof.
   split.
@@ -230,10 +304,11 @@ Proof.
     destruct (Nat.eqb_spec k i) as [->|Hk].
     + exfalso. eapply not_in_unsubscribe; eauto. apply W.
     + eapply wf_sub_src; eauto. eapply in_unsubscribe; eauto.
-  - intros y k. rewrite clear_subs, clear_srcs.
+  - intros y k. rewrite clear_subs, clear_srcs, clear_gone.
     destruct (Nat.eqb_spec k i) as [->|Hk]; [intros []|].
-    intros H. apply in_unsubscribe_other; auto. eapply wf_src_sub; eauto.
+    intros H Hg. apply in_unsubscribe_other; auto. eapply wf_src_sub; eauto.
   - intros k x. rewrite clear_srcs. destruct (Nat.eqb k i); [intros []|apply W].
+  - intros y. rewrite clear_gone, clear_subs. intros Hg. rewrite (wf_gone p s W y Hg). reflexivity.
 Qed.
 End Clear.
 
